@@ -373,6 +373,7 @@ func (w *World) verifyFunc(u *Unit, name string) (ex *Exec, err error) {
 		}
 	}
 	// unlock site names
+	ex.unitBody = body
 	ex.nameUnlockSites(body)
 	ex.indexLoops(body)
 	ex.indexCallSites(body)
